@@ -130,7 +130,7 @@ func flipCase(f flipSpec, o Opts, fresh bool) Case {
 func runFlip(t *testing.T) {
 	H.Rule("flip", "bounded-exhaustive: one fixed 9-module project using every construct a config-file option influences (JSX, class fields, decorators, enums, type-only imports, "+
 		"a sloppy TS script, CJS/ESM interop, side-effect imports, tsconfig paths, a dependency with main/exports); every ordered pair of distinct values of each of 12 tsconfig compilerOptions "+
-		"fields (under two base configurations) and of 6 package.json fields, flipped A→B→A→B on one context × 3 option sets × {old, fresh} mtimes; same oracle as hist; every case is non-trivial (3 config edits)")
+		"fields (under two base configurations) and of 6 package.json fields, flipped A→B→A→B on one context × 3 option sets × {old, fresh} mtimes; same oracle as hist; every case is non-trivial (3 config edits). The quick tier runs the fresh-mtime variant under one option set only and one half of the sweep (chosen by the seed).")
 	specs := enumerateFlips()
 	i := 0
 	for _, f := range specs {
@@ -142,6 +142,9 @@ func runFlip(t *testing.T) {
 				}
 				if !H.Thorough() && fresh && oi != 0 {
 					continue // quick tier: fresh-mtime variant only under the first option set
+				}
+				if !H.Thorough() && (i/H.NShards+int(H.Seed%2))%2 != 0 {
+					continue // quick tier: one of two halves of the sweep, chosen by the seed
 				}
 				c := flipCase(f, o, fresh)
 				v := judge(c)
